@@ -29,7 +29,11 @@ class C13Pairs(Scenario):
         cfg.update({"kind": kind, "rel": rel, "a_disk": kind == "bloom" and rng.chance(1, 3),
                     "b_disk": kind == "bloom" and rng.chance(1, 3), "steps": rng.between(2, self.max_steps),
                     "universe": rng.choice((4, 8, 16)), "hseed2": rng.below(1 << 16),
-                    "hash2": rng.choice(("md5", "sha256", "sim", "dec_bytes", "agree_first", "agree_first"))})
+                    "hash2": rng.choice(("md5", "sha256", "sim", "dec_bytes", "agree_first", "agree_first")),
+                    # operand b gets a function object of its own for the shared strategy; a pair of filters whose
+                    # strategy object computes what the SECOND strategy computes lives and dies before the run's own
+                    # strategy object is created (Env.recycle)
+                    "own_closures": rng.chance(1, 3), "recycle": rng.chance(1, 3)})
         return cfg
 
     def gen_step(self, rng):
@@ -57,7 +61,7 @@ class C13Pairs(Scenario):
         rel = cfg["rel"]
         if cfg["kind"] == "cms":
             sz = dict(self.o_sizing)
-            hf = self.env.hf
+            hf = self.env.fresh_hf() if cfg.get("own_closures") else self.env.hf
             if rel == "diff_est":
                 sz["width"] += 1
             elif rel == "diff_rate":
@@ -71,6 +75,10 @@ class C13Pairs(Scenario):
                 hf = self.hf2
             return (sz, hf), rel in ("compatible", "identical", "near", "same_bits", "same_geom")  # Bloom-only relations: compatible
         est, rate, hf = cfg["est"], cfg["rate"], self.env.hf
+        if cfg.get("own_closures") and rel != "diff_hash":
+            hf = self.env.fresh_hf()
+            if self.env.closures():
+                self.ctx.fault("per_object_hash_closure")
         if rel == "diff_est":
             est = est + 1 + est // 2
         elif rel == "diff_rate":
@@ -150,6 +158,17 @@ class C13Pairs(Scenario):
         self.disk = []
         from probables.hashes import default_fnv_1a
 
+        if cfg["kind"] != "cms" and cfg["hash2"] in ("sim", "dec_bytes"):
+            def prior_life(h):
+                d1 = self.make((cfg["est"], cfg["rate"], h), False)
+                d2 = self.make((cfg["est"], cfg["rate"], h), False)
+                d1.add("x")
+                d1.union(d2)
+                d1.intersection(d2)
+                d1.jaccard_index(d2)
+
+            self.env.recycle(prior_life, makers=[lambda: seams.make_list_hash(cfg["hash2"], cfg["hseed2"], 0)])
+            self.disk = []
         base_hf = self.env.hf or default_fnv_1a
         if cfg["hash2"] == "agree_first":
             # same first hash as the first strategy, different ones afterwards
